@@ -15,13 +15,13 @@ def run(ctx):
     quick = ctx.tier == 'quick'
     specs = [s for s in common.select(ctx, corpus.specs()) if s.tags & {'sc', 'scope', 'eof'}]
     pairs = [(s, c) for s in specs for c in configs(ctx.tier) if not compatible(s, c)]
-    # the start condition and the line-start flag are solver variables in every job
+    # (a) state-stack histories first: they are cheap and must never fall outside the time budget
+    from . import histories
+    histories.state_stack_obligations(ctx)
+    # (b) the start condition and the line-start flag are solver variables in every job
     common.tokenization_pairs(ctx, pairs, e1_tag='e1', e1_lengths=range(0, 4) if quick else range(0, 6),
                               e2_cap=10 if quick else 16,
                               full_e1_lengths=range(0, 3) if quick else range(0, 5))
-    try:
-        from . import histories
-        histories.state_stack_obligations(ctx)
-    except ImportError:
-        ctx.notes.append('state-stack history obligations not built yet')
+    ctx.assume('start-condition stack: 27 pushes/pops with a fixed pattern of conditions (past YY_START_STACK_INCR), 3 solver-chosen push/pop/begin operations against an array model, optional yylex_destroy() and reuse (non-reentrant), optional underflow')
+    ctx.out_of_bound.append('stack histories longer than 27+3 operations; yyrestart()/buffer switches inside the stack histories (C10/C11 assert the start condition is unchanged by them)')
     common.std_assumptions(ctx)
